@@ -66,10 +66,13 @@ fn run(id: &str, tier: Tier, replay: Option<String>) -> i32 {
         "C09" => checks::c09::main(tier, replay),
         "C10" => checks::c10::main(tier, replay),
         "C11" => checks::c11::main(tier, replay),
+        "C12" => checks::c12::main(tier, replay),
         "C13" => checks::c13::main(tier, replay),
         "C14" => checks::c14::main(tier, replay),
         "C15" => checks::c15::main(tier, replay),
+        "C16" => checks::c16::main(tier, replay),
         "C17" => checks::c17::main(tier, replay),
+        "C20" => checks::c20::main(tier, replay),
         _ => {
             eprintln!("unknown property {}", id);
             2
